@@ -298,8 +298,8 @@ AUDIT = {
     ('project.py', 'Project._renormed', 'self._norm_cache.items()'):
         (M, '', 'PIN', 'any(parts changed for root, parts in items): a boolean, independent of the iteration order'),
     ('scope.py', 'Scope.__init__', 'set()'):
-        (B, '', 'PIN', 'locals / globals: add, remove, in, difference; {n: names[n] for n in locals} builds the class attribute dict '
-                       '(read by key, listed through assist)'),
+        (B, '', 'PIN', 'locals / globals / nonlocals (d10f08d: update, in): add, remove, in, difference; {n: names[n] for n in locals} builds '
+                       'the class attribute dict (read by key, listed through assist)'),
     ('scope.py', 'loop_tracked', 'set()'):
         (M, '', 'PIN', 'LoopFlow.cut[-1]: the (loop, resolution) pairs a computation met: add / update, popped into `deps`'),
     ('scope.py', 'loop_tracked', 'frozenset((d for d in deps if d[0] is not obj))'):
@@ -345,7 +345,7 @@ PINS = {
     ('project.py', 'Project.list_packages', 'set()'): ('c93883abcb17',),
     ('project.py', 'Project.check_changes', 'self._module_cache.values()'): ('15161338bf82',),
     ('project.py', 'Project._renormed', 'self._norm_cache.items()'): ('915a1da17991',),
-    ('scope.py', 'Scope.__init__', 'set()'): ('bb25f8f19765', 'f00aa2331fa8'),
+    ('scope.py', 'Scope.__init__', 'set()'): ('bb25f8f19765', 'f00aa2331fa8', '6c781a90af17'),
     ('scope.py', 'SourceScope.resolve_star_imports', 'iterkeys(module._attrs)'): ('5468ce19e3fc',),
     ('scope.py', 'Flow.parent_names', 'set()'): ('9b34d7fd9035',),
     ('scope.py', 'SourceScope.exported_names', 'iteritems(self.names)'): ('0c9a53424808',),
